@@ -34,6 +34,13 @@ Clause ids (`what`):
                                          held on the first
   header_read_back_colon.<field>         a header text holding a ':' (`Re:Zero`) is read back unchanged - kept apart from
                                          header_read_back.<field> (plain text, non-ASCII, tab / NBSP / ideographic space, '#', '=', ',')
+  written_file_reads_back                read_file(path) of the file just written by write_file gives what read(write()) gives
+Dimensions 10-12 (no clause of their own: the clauses above are evaluated on the mapset AS IT IS at the observed write):
+  history   `before`: the mapset has been written (write / write_file) BEFORE it is rated; `edit`: after an earlier write the
+            SAME mapset is changed through public operations (all times moved through the stack / the list properties / newly
+            assigned lists, every bpm scaled in place, a hit appended) and only then observed;
+  files     write_file onto a path that does not exist / holds a longer / a shorter / another mapset's file (read before);
+  rates     also 0.1, 1/3, 3, 10 and a rate next to 1.
 A chart without any object is written with an empty data field; StepMania reads that as a chart without rows, so `den_sm`'s
 "a measure has 4k > 0 rows" is not applied to such a chart (its data is read as one empty measure).
 Time clauses of rated mapsets carry the suffix `.rate` so the consequences of an unscaled #OFFSET stay apart.
@@ -93,6 +100,10 @@ T0_INT = ("0", "-1118", "635", "500", "-2250", "3600000")
 CONVERT_SOURCES = ("osu", "qua", "bms")
 KEYS_TYPE = {4: "dance-single", 8: "dance-double", 6: "dance-solo", 3: "dance-threepanel", 7: "kb7-single"}
 LABELS = ("default", "default", "reversed", "gappy", "permuted")
+RATES_WIDE = (0.1, 1 / 3, 3, 10, 0.999)
+SHIFTS_MS = (250, -1118, 1000, 0.375, -0.5, 3600000)
+SHIFT_HOW = ("stack", "list_property", "new_lists")
+FILE_BEFORE = (None, "empty", "longer", "shorter", "other_mapset")
 
 # ============================================================================= in-memory mapsets
 
@@ -364,8 +375,76 @@ def build_converted(spec, source):
     return out[0] if isinstance(out, list) else out
 
 
-def make_mapset(case):
-    """The in-memory mapset of a case (origin read | built | converted, then selectable, then rate)."""
+def _earlier_write(ms, how):
+    """An earlier call of the observable function on the same object (its result is not looked at)."""
+    if how == "write_file":
+        fd, path = tempfile.mkstemp(suffix=".sm")
+        os.close(fd)
+        try:
+            ms.write_file(path)
+        finally:
+            os.unlink(path)
+    else:
+        ms.write()
+
+
+def _end_of_chart(m):
+    tempo = map_tempo(m)
+    end = tempo[-1][0]
+    for kind, rows in map_objects(m).items():
+        for _, t, ln in rows:
+            end = max(end, t + ln)
+    return tempo, end
+
+
+def apply_edit(ms, edit):
+    """A change of the SAME mapset through public operations that keeps it inside the domain (one shared tempo list,
+    #OFFSET on the first tempo point, objects on the snap grid of the tempo list)."""
+    from reamber.sm.SMHit import SMHit
+
+    op = edit["op"]
+    if op == "shift":
+        d = edit["by"]
+        for m in ms.maps:
+            if edit["how"] == "stack":
+                s = m.stack()
+                s.offset += d
+            else:
+                for name in list(m.objs):  # the lists the chart HAS
+                    lst = getattr(m, name)
+                    if edit["how"] == "list_property":
+                        lst.offset += d
+                    else:
+                        df = lst.df.copy()
+                        df["offset"] = df["offset"] + d
+                        setattr(m, name, type(lst)(df))
+        ms.offset = ms.offset + d
+    elif op == "scale_bpm":
+        for m in ms.maps:
+            if edit["how"] == "stack":
+                s = m.stack()
+                s.bpm *= edit["by"]
+            else:
+                m.bpms.bpm *= edit["by"]
+    elif op == "append_hit":
+        # one more hit, whole measures of the last tempo segment after everything the charts hold
+        ends = [_end_of_chart(m) for m in ms.maps]
+        tempo, end = ends[0][0], max(e for _, e in ends)
+        t_last, v_last = tempo[-1]
+        measure = 4 * 60000 / v_last
+        t = t_last + (floor((end - t_last) / measure + 1e-9) + 1) * measure
+        m = ms.maps[edit["chart"] % len(ms.maps)]
+        if str(m.hits.df["offset"].dtype).startswith("int") and float(t).is_integer():
+            t = int(t)
+        m.hits = m.hits.append(SMHit(t, 0), sort=bool(edit.get("sort")))
+    else:
+        raise ValueError(op)
+
+
+def make_mapset(case, notes=None):
+    """The in-memory mapset of a case (origin read | built | converted, then selectable, then - optionally after an
+    earlier write - rate, then - optionally after an earlier write - an edit in place).  `notes`: a list that receives
+    (what, detail) when an EARLIER write raises."""
     from reamber.sm.SMMapSet import SMMapSet
 
     if case["origin"] == "read":
@@ -380,8 +459,22 @@ def make_mapset(case):
     pre = None
     if abs(float(ms.offset) - map_tempo(ms.maps[0])[0][0]) > 1e-9 or any(map_tempo(m) != map_tempo(ms.maps[0]) for m in ms.maps):
         pre = "generated mapset outside the domain (#OFFSET != first tempo point, or charts with different tempo lists)"
-    if case.get("rate"):
-        ms = ms.rate(case["rate"])
+    try:
+        step = "before rate()"
+        if case.get("before") and not pre:
+            _earlier_write(ms, case["before"])
+        if case.get("rate"):
+            ms = ms.rate(case["rate"])
+        edit = case.get("edit")
+        if edit and not pre:
+            step = "before the edit"
+            if edit.get("after"):
+                _earlier_write(ms, edit["after"])
+            apply_edit(ms, edit)
+    except Exception as ex:
+        if notes is None or step == "before rate()" and not case.get("before"):
+            raise
+        notes.append(("write_completes", f"an earlier {case.get('before') if step == 'before rate()' else edit.get('after')}() {step} / the edit raised {type(ex).__name__}: {ex}"))
     return ms, pre
 
 
@@ -611,9 +704,11 @@ def run_write_case(case):
 
     fails = []
     with quiet():
-        ms, pre = make_mapset(case)
+        ms, pre = make_mapset(case, fails)
         if pre:
             raise AssertionError(pre)
+        if fails:
+            return fails
         rated = bool(case.get("rate"))
         sfx = ".rate" if rated else ""
         snap = snapshot(ms)
@@ -666,13 +761,34 @@ def run_write_case(case):
             fd, path = tempfile.mkstemp(suffix=".sm")
             os.close(fd)
             try:
+                # what the path holds before: nothing / an empty file / a longer / a shorter / another mapset's file
+                before = case.get("file_before", "empty")
+                if before is None:
+                    os.unlink(path)
+                elif before != "empty":
+                    old = dict(longer=text + "\n" + text + "// " + "x" * 4000 + "\n", shorter=text[: len(text) // 3])[before] if before != "other_mapset" else build_mapset(OTHER_SPEC).write()
+                    with open(path, "w", encoding="utf8", newline="") as f:
+                        f.write(old)
+                    if before == "other_mapset":
+                        SMMapSet.read_file(path)  # the path has been read before, too
                 ms.write_file(Path(path) if case["entry_points"] == "Path" else path)
                 with open(path, "r", encoding="utf8", newline="") as f:
                     stored = f.read()
+                rf, rf_err = None, None
+                if stored == text and "file_before" in case:
+                    try:
+                        rf = SMMapSet.read_file(Path(path) if case["entry_points"] == "Path" else path)
+                    except Exception as ex:
+                        rf_err = f"read_file raised {type(ex).__name__}: {ex}"
             finally:
-                os.unlink(path)
+                if os.path.exists(path):
+                    os.unlink(path)
             if stored != text:
-                fails.append(("write_file_equals_write", f"{len(stored)} characters stored, write() has {len(text)}"))
+                fails.append(("write_file_equals_write", f"{len(stored)} characters stored, write() has {len(text)}" + (f" (the path held {before!r} before)" if before != "empty" else "")))
+            elif "file_before" in case:
+                diff = rf_err or same_read(r1, rf)
+                if diff:
+                    fails.append(("written_file_reads_back", f"read_file(path) against read(write()): {diff}"))
     return fails
 
 
@@ -702,7 +818,37 @@ def gen_write_case(rng, i):
     if case["origin"] == "built" and rng.random() < 0.1:
         attrs = [a for a in TEXT_TAGS.values() if a not in ("bg_changes", "fg_changes", "display_bpm")]
         case["header_colon"] = {a: rng.choice(TEXT_COLON) for a in rng.sample(attrs, rng.choice((1, 1, 2)))}
+    _add_history(case)
     return case
+
+
+def _add_history(case):
+    """Dimensions 10-12 on top of the case (every choice is a function of the case drawn from rep.rng, so the cases of
+    earlier versions of this generator stay what they were): earlier calls of write on the same object, a legitimate
+    change after a write, what the target path holds, rates from the whole range."""
+    import json
+    import random
+
+    sub = random.Random(json.dumps(case, sort_keys=True, default=str))
+    integral = case["spec"].get("numeric") == "int"
+    if case["rate"] and not integral and sub.random() < 0.15:
+        case["rate"] = sub.choice(RATES_WIDE)
+    if case["rate"] and sub.random() < 0.6:
+        case["before"] = sub.choice(("write", "write", "write_file"))
+    if sub.random() < 0.35:
+        op = sub.choice(("shift", "shift", "scale_bpm", "append_hit"))
+        edit = dict(op=op, after=sub.choice(("write", "write", "write", "write_file", None)))
+        if op == "shift":
+            edit.update(by=sub.choice([x for x in SHIFTS_MS if not integral or float(x).is_integer()]), how=sub.choice(SHIFT_HOW))
+            if not integral:
+                edit["by"] = float(edit["by"])
+        elif op == "scale_bpm":
+            edit.update(by=2 if integral else sub.choice((2.0, 2.0, 0.5, 3.0)), how=sub.choice(("stack", "list_property")))
+        else:
+            edit.update(chart=sub.randrange(3), sort=sub.random() < 0.5)
+        case["edit"] = edit
+    if case["entry_points"]:
+        case["file_before"] = sub.choice(FILE_BEFORE)
 
 
 @bounded("C03", note="in-memory mapsets (read from generated .sm files, built list by list, made by the osu / Quaver / BMS -> SM converters; optionally rated, selectable False/True) written by the real SMMapSet.write and interpreted by the exact-rational format interpreter den_sm; header read-back and re-read stability through the real reader; mapset unchanged by writing, second write after another mapset")
@@ -717,9 +863,12 @@ def sm_write_vs_interpreter(rep):
         f"a third of the others from numpy scalars; #OFFSET from {list(T0_POOL + T0_EXTRA)}; header text incl. non-ASCII, tab / NBSP / U+3000, '#', '=', ','; in 30% some header attributes (20%: the sample window) left at the class defaults; "
         f"in 10% one or two header texts with a ':'), 15% made by {list(CONVERT_SOURCES)} -> SM converters from a source chart built in memory (3 / 4 / 6 / 7 / 8 keys, hits and holds); "
         f"40% of all then rated by one of {list(RATES)}; selectable False in 40%; chart types {list(WRITE_TYPES)}; every case: the mapset compared before / after write(); 50%: a second write(), half of them after another mapset was built and written; "
-        "25%: write_file with a str / pathlib.Path"
+        "25%: write_file with a str / pathlib.Path, onto a path that does not exist / holds an empty / a longer / a shorter file / another mapset's file that has been read from there, then read_file of it; "
+        f"HISTORY of the object: 60% of the rated ones were written (write / write_file) BEFORE rate(); 35% of all are CHANGED IN PLACE before the observed write, 80% of those after an earlier write of the same object "
+        f"(all times moved by one of {list(SHIFTS_MS)} ms through stack().offset / every list's offset property / newly assigned lists, together with #OFFSET; every bpm scaled by 2 / 0.5 / 3 through the stack / the list property; "
+        f"a hit appended whole measures after the end); 15% of the rated ones with a rate from {[round(x, 4) for x in RATES_WIDE]}"
     )
-    rep.rule = "a case is one mapset; non-trivial when read from a file or holding at least 3 objects"
+    rep.rule = "a case is one mapset with its history (earlier writes, rate, edits in place) and the observed write; every clause is about the mapset as it is at the observed write; non-trivial when read from a file or holding at least 3 objects"
     kinds = {}
     for i in range(N):
         if rep.out_of_time(35, 600):
@@ -728,7 +877,9 @@ def sm_write_vs_interpreter(rep):
         origin, spec = case["origin"], case["spec"]
         key = origin + ("+rate" if case["rate"] else "") + ("" if origin == "read" else ("/on_measure" if spec["on_measure"] else "/off_measure"))
         kinds[key] = kinds.get(key, 0) + 1
-        for flag, on in (("empty_chart", origin != "read" and any(not c["objects"] for c in spec["charts"])), ("int_typed", spec.get("numeric") == "int"), ("header_colon", bool(case.get("header_colon"))), ("rows_not_in_time_order", origin != "read" and spec["rows"]["notes_order"] != "time"), ("labels_not_default", origin != "read" and (spec["rows"]["notes_labels"] != "default" or spec["rows"]["tempo_labels"] != "default"))):
+        for flag, on in (("empty_chart", origin != "read" and any(not c["objects"] for c in spec["charts"])), ("int_typed", spec.get("numeric") == "int"), ("header_colon", bool(case.get("header_colon"))), ("rows_not_in_time_order", origin != "read" and spec["rows"]["notes_order"] != "time"), ("labels_not_default", origin != "read" and (spec["rows"]["notes_labels"] != "default" or spec["rows"]["tempo_labels"] != "default")),
+                         ("written_before_rate", bool(case.get("before"))), ("edited_after_a_write", bool((case.get("edit") or {}).get("after"))), ("edited_" + (case.get("edit") or {}).get("op", ""), bool(case.get("edit"))),
+                         ("file_before_" + str(case.get("file_before")), "file_before" in case), ("rate_wide", case["rate"] in RATES_WIDE)):
             if on:
                 kinds[flag] = kinds.get(flag, 0) + 1
         rep.case(case, nontrivial=_nontrivial(case))
